@@ -1905,7 +1905,21 @@ class JobsCursor:
             Implicit and explicit sp prefixes are equivalent and can be treated
             identically for this purpose.
             """
-            return key.split(".", 1)[-1]
+            prefix, dot, rest = key.partition(".")
+            return rest if dot and prefix in ("sp", "doc") else key
+
+        _no_default = object()
+
+        def _lookup(mapping, key, default=_no_default):
+            """Look up a (possibly nested, i.e. dotted) key."""
+            try:
+                for node in key.split("."):
+                    mapping = mapping[node]
+            except (KeyError, TypeError):
+                if default is _no_default:
+                    raise KeyError(key)
+                return default
+            return mapping
 
         def _is_doc_key(key):
             """Check if a key is a document key."""
@@ -1923,23 +1937,23 @@ class JobsCursor:
                 if _is_doc_key(key):
 
                     def keyfunction(job):
-                        return job.document[stripped_key]
+                        return _lookup(job.document, stripped_key)
 
                 else:
 
                     def keyfunction(job):
-                        return job.cached_statepoint[stripped_key]
+                        return _lookup(job.cached_statepoint, stripped_key)
 
             else:
                 if _is_doc_key(key):
 
                     def keyfunction(job):
-                        return job.document.get(stripped_key, default)
+                        return _lookup(job.document, stripped_key, default)
 
                 else:
 
                     def keyfunction(job):
-                        return job.cached_statepoint.get(stripped_key, default)
+                        return _lookup(job.cached_statepoint, stripped_key, default)
 
         elif isinstance(key, Iterable):
             sp_keys = []
@@ -1958,16 +1972,16 @@ class JobsCursor:
 
                 def keyfunction(job):
                     return tuple(
-                        [job.cached_statepoint[k] for k in sp_keys]
-                        + [job.document[k] for k in doc_keys]
+                        [_lookup(job.cached_statepoint, k) for k in sp_keys]
+                        + [_lookup(job.document, k) for k in doc_keys]
                     )
 
             else:
 
                 def keyfunction(job):
                     return tuple(
-                        [job.cached_statepoint.get(k, default) for k in sp_keys]
-                        + [job.document.get(k, default) for k in doc_keys]
+                        [_lookup(job.cached_statepoint, k, default) for k in sp_keys]
+                        + [_lookup(job.document, k, default) for k in doc_keys]
                     )
 
         elif key is None:
